@@ -34,7 +34,14 @@ type Obligation struct {
 	StrLits    map[string]string // string-literal symbol -> text (for replay)
 }
 
+type CoverPoint struct {
+	Guard    string
+	NAssumes int
+	What     string
+}
+
 type VC struct {
+	Covers   []CoverPoint
 	FuncName string
 	decls    []string
 	declSet  map[string]bool
@@ -46,10 +53,11 @@ type VC struct {
 	strOrder []string
 	Abstracted []string // notes: what the translation abstracts for this function
 	heapVarSorts map[string]Sort
+	constVars    map[string]bool // heap variables of fields declared const: never havocked by frames
 }
 
 func NewVC(fn string) *VC {
-	vc := &VC{FuncName: fn, declSet: map[string]bool{}, strLits: map[string]string{}, heapVarSorts: map[string]Sort{}}
+	vc := &VC{FuncName: fn, declSet: map[string]bool{}, strLits: map[string]string{}, heapVarSorts: map[string]Sort{}, constVars: map[string]bool{}}
 	return vc
 }
 
@@ -193,6 +201,7 @@ type Heap struct {
 	parents []heapEdge
 	havoc   bool            // true: unknown variables are fresh (entry state or havoc-all)
 	havocSet map[string]bool // variables that are fresh at this node (others come from the parent)
+	keepSet  map[string]bool // for havoc-all nodes: variables that keep the parent's value
 	vc      *VC
 }
 
@@ -243,6 +252,10 @@ func (h *Heap) Get(name string, s Sort) string {
 	}
 	var t string
 	switch {
+	case h.havoc && (h.keepSet[name] || h.vc.constVars[name]) && len(h.parents) == 1:
+		t = h.parents[0].h.Get(name, s)
+	case h.havocSet[name] && h.vc.constVars[name] && len(h.parents) == 1:
+		t = h.parents[0].h.Get(name, s)
 	case h.havoc || len(h.parents) == 0 || h.havocSet[name]:
 		t = fmt.Sprintf("%s@%d", mangle(name), h.id)
 		h.vc.Declare(t, nil, s)
@@ -284,7 +297,17 @@ func (vc *VC) JoinHeaps(edges []heapEdge) *Heap {
 // HavocAll returns a heap in which every variable is unknown.
 func (h *Heap) HavocAll() *Heap {
 	heapCounter++
-	return &Heap{id: heapCounter, vals: map[string]string{}, havoc: true, vc: h.vc}
+	return &Heap{id: heapCounter, vals: map[string]string{}, havoc: true, parents: []heapEdge{{"true", h}}, vc: h.vc}
+}
+
+// HavocAllBut forgets everything except the listed variables.
+func (h *Heap) HavocAllBut(keep []string) *Heap {
+	heapCounter++
+	ks := map[string]bool{}
+	for _, k := range keep {
+		ks[k] = true
+	}
+	return &Heap{id: heapCounter, vals: map[string]string{}, havoc: true, keepSet: ks, parents: []heapEdge{{"true", h}}, vc: h.vc}
 }
 
 // HavocVars returns a heap where the listed variables are fresh and everything else is kept.
